@@ -28,12 +28,12 @@ ASSUMPTIONS = ['existing positions are finite and pairwise distinct (the invaria
                'requests that tie with each other are placed in batch order (what BulkAddRecord relies on to keep rows in the order given)',
                'in situ: positions are only written through user actions (ApplyDocActions of hand-made doc actions is not sanitised) and '
                'undo is in order (an out-of-order undo restores an old position verbatim)']
-REQUIRED = {'direct_calls': {'quick': 25000, 'thorough': 500000},
-            'direct_calls_with_adjustments': {'quick': 3000, 'thorough': 60000},
-            'stateful_steps': {'quick': 4000, 'thorough': 80000},
-            'contract.C20.prepare_inserts': {'quick': 2000, 'thorough': 30000},
-            'insitu_position_cells_checked': {'quick': 100000, 'thorough': 2000000},
-            'insitu_order_checks': {'quick': 800, 'thorough': 10000}}
+REQUIRED = {'direct_calls': {'quick': 25000, 'thorough': 250000},
+            'direct_calls_with_adjustments': {'quick': 3000, 'thorough': 50000},
+            'stateful_steps': {'quick': 4000, 'thorough': 40000},
+            'contract.C20.prepare_inserts': {'quick': 2000, 'thorough': 8000},
+            'insitu_position_cells_checked': {'quick': 100000, 'thorough': 1000000},
+            'insitu_order_checks': {'quick': 800, 'thorough': 4500}}
 SHARD_TIMEOUT = {'quick': 240, 'thorough': 2400}
 
 MIN_NORMAL = 2.2250738585072014e-308
@@ -255,10 +255,10 @@ def plan(tier, seed):
            [{'kind': 'stateful', 'rseed': seed * 100003 + 50 + i, 'steps': 900} for i in range(5)] + \
            [{'kind': 'positions', 'rseed': seed * 100003 + 100 + i, 'steps': 450} for i in range(4)] + \
            [{'kind': 'history', 'hseed': seed * 100003 + 200 + i, 'steps': 40} for i in range(2)]
-  return wit + [{'kind': 'direct', 'rseed': seed * 100003 + i, 'n': 30000} for i in range(24)] + \
-         [{'kind': 'stateful', 'rseed': seed * 100003 + 50 + i, 'steps': 5000} for i in range(20)] + \
-         [{'kind': 'positions', 'rseed': seed * 100003 + 100 + i, 'steps': 1500} for i in range(16)] + \
-         [{'kind': 'history', 'hseed': seed * 100003 + 200 + i, 'steps': 70} for i in range(16)]
+  return wit + [{'kind': 'direct', 'rseed': seed * 100003 + i, 'n': 20000} for i in range(16)] + \
+         [{'kind': 'stateful', 'rseed': seed * 100003 + 50 + i, 'steps': 4000} for i in range(12)] + \
+         [{'kind': 'positions', 'rseed': seed * 100003 + 100 + i, 'steps': 800} for i in range(12)] + \
+         [{'kind': 'history', 'hseed': seed * 100003 + 200 + i, 'steps': 60} for i in range(12)]
 
 
 def one_direct(acc, fam, existing, keys, kinds, where):
@@ -484,7 +484,12 @@ def run_positions(spec, acc):
           return r.choice([r.choice(posn), nextfloat(r.choice(posn)), prevfloat(r.choice(posn)), posn[0] / 2, posn[-1] + 1])
         return r.choice([0.0, 1.0, 2.5, 1e-300, 1e9, -1.0, 0.5])
 
-      if k < 0.5 or len(ids) < 3:
+      if len(ids) > 150:
+        # keep the table (and with it the cost of a snapshot) bounded: thin it out
+        tgt = r.sample(ids, 70)
+        bundle = [['BulkRemoveRecord', 'T', tgt]]
+        what = 'remove'
+      elif k < 0.5 or len(ids) < 3:
         n = r.choice([1, 1, 1, 2, 3, 6])
         reqs = [req() for _ in range(n)]
         if r.random() < 0.3:
